@@ -310,6 +310,11 @@ func trimErrorCodePrefix(err error, httpStatus int, errorCode string) string {
 	if errorCode != "" {
 		buf = buf[:0]
 		buf = appendErrorCodePrefix(buf, errorCode)
+		if msg == string(buf) {
+			// The text is just the code, as printed for an
+			// error with an empty message: keep it empty.
+			return ""
+		}
 		buf = append(buf, ": "...)
 		msg = strings.TrimPrefix(msg, string(buf))
 	}
